@@ -4,7 +4,7 @@ import re, sys, os
 runs = {}
 for path in sys.argv[1:]:
     cur = None
-    for line in open(path):
+    for line in open(path, errors="replace"):
         m = re.match(r"== (C\d\d-b\d)", line)
         if m:
             cur = m.group(1); runs.setdefault(cur, {}); continue
